@@ -103,6 +103,18 @@ CLAIMS = {
         COMMON_NOTE + "Axioms: the three standard-library real-number axioms (sig_forall_dec, sig_not_dec, functional_extensionality_dep). "
         "The translator is trusted to render the supported expression grammar; it fails closed on anything else.",
         "DESIGN.md §3 C18"),
+    "C02": (
+        "Coq proof (scheduling: permutation + dependency preservation + trace-monoid commutation lemma; gate tables via C18; one trajectory for noise-free runs) + exact schedule correspondence + state-vector search against Qiskit",
+        "Machine-checked proof that the layered schedule of digital_tjm executes every gate of any circuit exactly once, keeps the program "
+        "order of gates sharing a qubit, terminates, and that all such linearisations have the same product in every monoid semantics "
+        "where disjoint gates commute; that a noise-free run executes exactly one trajectory; together with C18 (each gate's matrix is "
+        "the standard one and its generator exponentiates to it, all angles). PARTIAL: that the windowed two-site TDVP sweep applies "
+        "exp(-i A(x)B) exactly (projector-splitting exactness for a rank-one generator inside the window) and the Krylov accuracy are "
+        "not mechanised; they are covered by the search, which compares simulator.run(get_state=True) with Qiskit's Operator on random "
+        "circuits over the full gate set, both orientations, all built-in initial states: amplitudes up to global phase and all one- and "
+        "adjacent two-site Pauli expectation values.",
+        COMMON_NOTE + "Axioms: closed under the global context for the scheduling theorems; the real-number axioms for the C18 part.",
+        "DESIGN.md §3 C02"),
 }
 
 NOT_YET = "check not built yet in this round (planned in DESIGN.md §3); no claim is made"
